@@ -1096,6 +1096,7 @@ class ExcelCompiler:
 
     def _process_gen_graph(self):
 
+        failure = None
         while self.graph_todos:
             # connect the dependant cells in the graph
             dependant = self.graph_todos.pop()
@@ -1104,10 +1105,19 @@ class ExcelCompiler:
 
             for precedent_address in dependant.needed_addresses:
                 if precedent_address.address not in self.cell_map:
-                    self._gen_graph(precedent_address, recursed=True)
+                    try:
+                        self._gen_graph(precedent_address, recursed=True)
+                    except Exception as exc:
+                        # ie: a sheet that is not there.  The cells are in
+                        # the model, and need their other precedents anyways
+                        failure = failure or exc
+                        continue
 
                 self.dep_graph.add_edge(
                     self.cell_map[precedent_address.address], dependant)
+
+        if failure is not None:
+            raise failure
 
         # calc the values for ranges, evaluating can come back here to build
         # more of the graph, which is not to start on these ranges again
